@@ -80,7 +80,11 @@ Inductive c16_step :=
         (elig : bool)                     (* query AirdropEligible { eth_addr } *)
         (member : bool)                   (* collection whitelist HasMember { sender } *)
         (count : option N)                (* raw ADDRS_TO_MINT_COUNT[eth_addr] *)
-        (num_members : N).                (* collection whitelist Config.num_members *)
+        (num_members : N)                 (* collection whitelist Config.num_members *)
+(* operations of the collection whitelist's own admin between claims *)
+| WlRemove (m : bytes) (ok member : bool) (num_members : N)   (* RemoveMembers [m]; HasMember m afterwards *)
+| WlAdd (m : bytes) (ok member : bool) (num_members : N)      (* AddMembers [m] *)
+| WlAirdropAdmin (b : bool) (ok : bool).                      (* UpdateAdmins with / without the airdrop contract *)
 
 Inductive c16_case :=
 | CWorld (funds : list coin) (template : bytes) (amount : N) (addresses : list bytes) (limit : N)
@@ -110,6 +114,18 @@ Definition step_check (w : world) (s : c16_step) : option world :=
          && option_eqb N.eqb (bmap_find eth_addr (a_counts (w_air w'))) count
          && (cw_num (w_cwl w') =? nm)
       then Some w' else None
+  | WlRemove m ok member nm =>
+      let r := cwl_remove (w_cwl w) m in
+      let c' := match r with Ok c' => c' | Err => w_cwl w end in
+      if Bool.eqb (is_ok r) ok && Bool.eqb (mem m (cw_members c')) member && (cw_num c' =? nm)
+      then Some (set_cwl w c') else None
+  | WlAdd m ok member nm =>
+      let r := cwl_add (w_cwl w) [m] in
+      let c' := match r with Ok c' => c' | Err => w_cwl w end in
+      if Bool.eqb (is_ok r) ok && Bool.eqb (mem m (cw_members c')) member && (cw_num c' =? nm)
+      then Some (set_cwl w c') else None
+  | WlAirdropAdmin b ok =>
+      if ok then Some (set_cwl w (cwl_set_airdrop_admin (w_cwl w) b)) else None
   end.
 
 Fixpoint steps_check (w : world) (ss : list c16_step) : option world :=
